@@ -26,6 +26,7 @@ inductive Ev where
   | push | pop
   | add (f : String)               -- formulas added after initialisation (bounds, blocking clauses)
   | unsatCore
+  | trackedOwners (n : Nat)       -- debug mode: size of the assertion → constraint map
   | export
   | raise (e : String)
   | ret (v : String)               -- return value kind of the public method
@@ -42,6 +43,7 @@ def Ev.print : Ev → String
   | Ev.pop => "pop"
   | Ev.add f => "add " ++ f
   | Ev.unsatCore => "unsat_core"
+  | Ev.trackedOwners n => "tracked-owners " ++ toString n
   | Ev.export => "export"
   | Ev.raise e => "raise " ++ e
   | Ev.ret v => "return " ++ v
@@ -74,6 +76,7 @@ structure SolverSt where
   goal : Option Goal := none        -- `_objective` (incremental) if any
   trace : List Ev := []
   seen : List (List Fml × Answer) := []   -- ghost: (assertion stack, answer) of every check()
+  nOwners : Nat := 0                -- size of `_map_boolrefs_to_constraints` (never reset)
   deriving Inhabited
 
 /-- which objective `create_objective` installs, given the problem's objectives -/
@@ -112,8 +115,11 @@ def optimizeCalls (cfg : SConfig) (st : State) : List Ev :=
 
 def SolverSt.initialize (s : SolverSt) (st : State) : SolverSt :=
   let fs := initFmls s.cfg.toConfig st
-  { s with initialized := true, base := fs, frames := [], goal := mkGoal s.cfg st,
-           trace := s.trace ++ [Ev.new (solverKind s.cfg st), Ev.initAdd fs.length] ++ optimizeCalls s.cfg st }
+  let owned := ((initializeO s.cfg.toConfig st).filter (fun p => match p.1 with | .constr _ _ => true | _ => false)).length
+  let n := if s.cfg.debug then s.nOwners + owned else s.nOwners
+  { s with initialized := true, base := fs, frames := [], goal := mkGoal s.cfg st, nOwners := n,
+           trace := s.trace ++ [Ev.new (solverKind s.cfg st), Ev.initAdd fs.length] ++ optimizeCalls s.cfg st ++
+                    (if s.cfg.debug then [Ev.trackedOwners n] else []) }
 
 /-- the assertion stack a `check()` sees -/
 def SolverSt.stack (s : SolverSt) : List Fml := s.base ++ s.frames.reverse
@@ -163,7 +169,10 @@ def LoopSt.pushed (l1 : LoopSt) (g : Goal) (v : Int) (three : List Int) : LoopSt
 
 /-- one run of the loop over the scripted answers / durations -/
 def incLoop (base : List Fml) (g : Goal) (maxIter : Option Nat) (maxTime : Int) : List (Answer × Int) → LoopSt → LoopSt
-  | [], l => l
+  | [], l =>
+    -- the scripted oracle is exhausted: every further check() answers `unknown`
+    if iterExceeded maxIter (l.iter + 1) then { l with iter := l.iter + 1, exit := "max-iter" }
+    else { l with iter := l.iter + 1, trace := l.trace ++ [Ev.check "unknown"], exit := "unknown" }
   | (a, d) :: rest, l =>
     if iterExceeded maxIter (l.iter + 1) then { l with iter := l.iter + 1, exit := "max-iter" }
     else
@@ -219,7 +228,7 @@ def SolverSt.solve (s0 : SolverSt) (st : State) (answers : List (Answer × Int))
       | some ρ => { s := { s1 with model := some ρ, trace := s1.trace ++ [Ev.ret "solution"] }, rest := answers.drop used }
   | none =>
       match answers with
-      | [] => { s := { s with trace := s.trace ++ [Ev.ret "False"] }, rest := [] }
+      | [] => { s := { s with trace := s.trace ++ [Ev.check "unknown", Ev.ret "False"] }, rest := [] }
       | (a, _) :: rest =>
         match a with
         | .unsat =>
